@@ -211,7 +211,9 @@ CHECKS = {
               "rules (zero, d0, v0, d0+v0, static, static+d0, static+v0) are exported by the spec (IcRule) and crossed with every problem; "
               "layouts with the rf equation first and with rb/el/rf interleaved; extra kinds 'rbv' (damped rigid-body mode between the two "
               "documented cut-offs, 200 steps) and 'soft' (a soft heavy equation at a large step, rb set given or not) with their "
-              "legality rules in the spec."),
+              "legality rules in the spec; coupling 'kcoupled' (a diagonal NON-UNIFORM mass handed over as a vector next to full damping and "
+              "stiffness, T = Q sqrt(D)), which is the mass form under which the modal pre-transformation weights initial conditions by a vector. "
+              "Random congruences are conditioned (cond(T) <= 30)."),
         ref="4/C01",
         note=("Trusted: TLC, the generic term evaluator (mpmath, 50 digits). Tolerance 1e-9 of the history scale; 5e-8 within 1e-6 of "
               "critical damping; 2e-3 for rigid-body damping below the documented cut-off. SolveUnc's coupled path is not asked to "
@@ -231,7 +233,9 @@ CHECKS = {
               "tied to one definition. solvepsd = sum_i PSD_i |H_i|^2 from the terms, rms = sqrt(trapezoid). Grown since (Stress tuples of "
               "the spec): solver objects built with a time step (hgiven), real and complex roots mixed, frequency vectors in any order "
               "(0 Hz not first), rb/el/rf interleaved and non-contiguous rb index arrays, non-symmetric (gyroscopic) damping compared with "
-              "full-matrix terms MatD/MatV/MatA, solvepsd with a force that excites nothing modally but feeds through drmf."),
+              "full-matrix terms MatD/MatV/MatA, solvepsd with a force that excites nothing modally but feeds through drmf and on four "
+              "frequency-grid families (random, uniform, logarithmic, coarse with a refined band); one solver object called twice with the SAME "
+              "frequency / force arrays whose contents were changed in place. Thorough: sixteen independent instantiations per configuration."),
         ref="4/C02",
         note=("Trusted: TLC, generic term evaluator (numpy complex). Rigid-body equations undamped (modal-space rb); resonance is "
               "sampled on damped modes only. One genuine defect repaired (complex uncoupled system with rb and given mass, fix: "
@@ -446,7 +450,9 @@ def build():
                   "Every check ends with the purity part (specs/Purity.tla, harness/purity.py): a recorded trace of representative public "
                   "calls of the property's functions - the call, the repeated call, the call after unrelated calls and the same call in a "
                   "forked fresh process - is validated by TLC against a memo-table machine (arguments untouched, same arguments -> same "
-                  "answer); a rejected line is a VIOLATION of the property the call belongs to. VERIF_NO_PURITY=1 skips it. "
+                  "answer); the key is the LOGICAL value of the arguments, so the same call with column-major copies, non-contiguous views or "
+                  "non-native byte order must give the same answer too; a rejected line is a VIOLATION of the property the call belongs to. "
+                  "VERIF_NO_PURITY=1 skips it. "
                   "Departures from a growth specification on behaviour the property does not speak about (pool heuristics, INCLUDE look-up, "
                   "card layout, resampled lengths, naming) are printed as SPEC-DEVIATION lines and recorded in the evidence; they never "
                   "produce a VIOLATION line or a non-zero exit (DESIGN.md 9.65)."),
